@@ -1,9 +1,13 @@
 package main
 
 import (
-	"os/exec"
-	"os"
+	"bufio"
 	"bytes"
+	"io"
+	"log/slog"
+	"net/url"
+	"os"
+	"os/exec"
 	"context"
 	"fmt"
 	"net/http"
@@ -13,6 +17,7 @@ import (
 	"sync"
 	"time"
 
+	gproxy "github.com/a-h/templ/cmd/templ/generatecmd/proxy"
 	"github.com/a-h/templ/cmd/templ/generatecmd/sse"
 )
 
@@ -413,6 +418,7 @@ func runC19(e *emitter, tier string, seed uint64) {
 	}
 	c19SlowReader(e)
 	c19Burst(e)
+	c19ThroughProxy(e)
 	c19Stress(e, tier)
 	// the witness of the repaired defect and small hand-written churn schedules
 	for _, s := range [][]string{
@@ -628,7 +634,7 @@ func runC19Stress(e *emitter, tier string, seed uint64) {
 	if tier == "thorough" {
 		dur = 6 * time.Second
 	}
-	residents := make([]*recWriter, 32)
+	residents := make([]*recWriter, 72) // as many tabs as a long session leaves open
 	ctx, cancel := context.WithCancel(context.Background())
 	var rwg sync.WaitGroup
 	for i := range residents {
@@ -700,13 +706,22 @@ func c19Stress(e *emitter, tier string) {
 		return
 	}
 	self, _ := os.Executable()
-	cmd := exec.Command(self, "C19stress", "-tier", tier)
+	limit := 45 * time.Second
+	if tier == "thorough" {
+		limit = 90 * time.Second
+	}
+	cctx, ccancel := context.WithTimeout(context.Background(), limit)
+	defer ccancel()
+	cmd := exec.CommandContext(cctx, self, "C19stress", "-tier", tier)
 	var stderr bytes.Buffer
 	cmd.Stderr = &stderr
 	out, err := cmd.Output()
 	status, sent, missing := "ok", 0, 0
 	if n, _ := fmt.Sscanf(strings.TrimSpace(string(out)), "STRESS sent=%d missing=%d", &sent, &missing); n != 2 || err != nil {
 		status = fmt.Sprintf("child failed: %v", err)
+		if cctx.Err() != nil {
+			status = fmt.Sprintf("wedged: no result within %v (broadcasts, subscriptions or departures block for good)", limit)
+		}
 		if i := strings.Index(stderr.String(), "fatal error:"); i >= 0 {
 			status = strings.SplitN(stderr.String()[i:], "\n", 2)[0]
 		} else if i := strings.Index(stderr.String(), "panic:"); i >= 0 {
@@ -762,4 +777,86 @@ func c19Burst(e *emitter) {
 	cancel()
 	wg.Wait()
 	e.emit("burst", "burst", fmt.Sprint(sent), strings.Join(got, ","))
+}
+
+// c19ThroughProxy: the event stream as the browser gets it - through the development proxy's handler behind a real HTTP
+// server - with the proxy's logger at the default and at the debug level (templ generate --watch -v). The response
+// headers and every broadcast event must reach the client promptly.
+func c19ThroughProxy(e *emitter) {
+	if !e.mine("viaproxy") {
+		return
+	}
+	c19Current = nil
+	tgt, _ := url.Parse("http://127.0.0.1:1")
+	for _, lv := range []struct {
+		name  string
+		level slog.Level
+	}{{"info", slog.LevelInfo}, {"debug", slog.LevelDebug}} {
+		log := slog.New(slog.NewJSONHandler(io.Discard, &slog.HandlerOptions{Level: lv.level}))
+		ph := gproxy.New(log, "127.0.0.1", 0, tgt)
+		front := httptest.NewServer(ph)
+		ctx, cancel := context.WithCancel(context.Background())
+		type res struct {
+			resp *http.Response
+			err  error
+		}
+		rc := make(chan res, 1)
+		go func() {
+			req, _ := http.NewRequestWithContext(ctx, "GET", front.URL+"/_templ/reload/events", nil)
+			resp, err := http.DefaultTransport.RoundTrip(req)
+			rc <- res{resp, err}
+		}()
+		headers, events := false, 0
+		const n = 3
+		select {
+		case r := <-rc:
+			if r.err == nil {
+				headers = r.resp.Header.Get("Content-Type") == "text/event-stream"
+				lines := make(chan string, 64)
+				go func() {
+					sc := bufio.NewScanner(r.resp.Body)
+					for sc.Scan() {
+						lines <- sc.Text()
+					}
+					close(lines)
+				}()
+				for i := 0; i < n; i++ {
+					if i == n-1 { // the last one the way the notify command does it
+						if pr, err := http.Post(front.URL+"/_templ/reload/events", "text/plain", nil); err == nil {
+							pr.Body.Close()
+						}
+					} else {
+						ph.SendSSE("message", "reload")
+					}
+					deadline := time.After(2 * time.Second)
+				wait:
+					for {
+						select {
+						case l, ok := <-lines:
+							if !ok {
+								break wait
+							}
+							if l == "data: reload" {
+								events++
+								break wait
+							}
+						case <-deadline:
+							break wait
+						}
+					}
+				}
+				cancel()
+				r.resp.Body.Close()
+			}
+		case <-time.After(2 * time.Second):
+			// the response headers did not arrive: the stream is held back
+			for i := 0; i < n; i++ {
+				ph.SendSSE("message", "reload")
+			}
+		}
+		cancel()
+		front.CloseClientConnections()
+		front.Close()
+		e.emit("viaproxy "+lv.name, "viaproxy", lv.name, b01(headers), fmt.Sprint(n), fmt.Sprint(events))
+	}
 }
